@@ -122,6 +122,13 @@ let file_exec (f : string array) : string =
       Bytes.blit (Bytes.sub s (src * 32768) 32768) 0 s (dst * 32768) 32768;
       cur := df_open !cur.df_id (bytes_of_string (Bytes.to_string s));
       string_of_int (int_of_n (df_size !cur)) end
+  | "zeroblock" ->
+    let b = int_of_string f.(2) in
+    let s = Bytes.of_string (string_of_bytes !cur.df_bytes) in
+    if (b + 1) * 32768 > Bytes.length s then "err zeroblock" else begin
+      Bytes.fill s (b * 32768) 32768 '\000';
+      cur := df_open !cur.df_id (bytes_of_string (Bytes.to_string s));
+      string_of_int (int_of_n (df_size !cur)) end
   | "trunc" ->
     let s = string_of_bytes !cur.df_bytes in
     let k = min (int_of_string f.(2)) (String.length s) in
